@@ -1050,8 +1050,10 @@ struct Exec {
                         if (q1 != std::string::npos) {
                             std::string cname = why.substr(q0 + 6, q1 - q0 - 6);
                             auto it = want_c.cells.find(cname);
-                            if (it != want_c.cells.end())
+                            if (it != want_c.cells.end()) {
                                 ctx.set("cell_had_path_vertices_one_grid_step_apart", it->second.close_path_vertices > 0);
+                                ctx.set("a_vertex_was_strictly_within_tolerance", noise_cells_of_file[file].count(cname) > 0);
+                            }
                         }
                     }
                     viol(prop, clause, why, ctx);
@@ -1091,6 +1093,7 @@ struct Exec {
                 full.precision = E.c.precision;
             }
             canons[name] = full;
+            canon_file[name] = file;
             if (libs.count(name)) guarded([&]() { libs[name].free_all(); });
             libs[name] = lib;
         } else {
@@ -1098,6 +1101,22 @@ struct Exec {
         }
         drain_seam_violations(prop, ctx);
         check_handles(prop, ctx);
+    }
+
+    // Which cells of a re-saved file descend from a load in which some path vertex lay strictly within the
+    // path's tolerance of its predecessor (computed at load time with the writer's own comparison)?  That
+    // is the exact precondition of the known loss of a vertex on re-save; any other loss is a new violation.
+    std::map<std::string, std::set<std::string>> noise_cells_of_file;
+    std::map<std::string, std::string> canon_file;
+    void note_noise_chain(const std::string& from, const std::string& file) {
+        std::set<std::string> s;
+        auto cf = canon_file.find(from);
+        if (cf != canon_file.end()) s = noise_cells_of_file[cf->second];
+        auto cn = canons.find(from);
+        if (cn != canons.end())
+            for (auto& kv : cn->second.cells)
+                if (kv.second.strict_tolerance_drops > 0) s.insert(kv.first);
+        noise_cells_of_file[file] = s;
     }
 
     // save a previously loaded library again (cycles >= 2)
@@ -1128,6 +1147,7 @@ struct Exec {
         clear_policy();
         note_saved(file, op, "gds", true, given);
         finfo[file].writer = via_writer ? "writer" : "lib";
+        note_noise_chain(from, file);
         count("resave_gds");
         J ctx = J::obj();
         drain_seam_violations(prop, ctx);
@@ -1953,9 +1973,12 @@ struct Exec {
                     if (clause == "paths") {
                         size_t q0 = why.find("cell '"), q1 = q0 == std::string::npos ? q0 : why.find("':", q0);
                         if (q1 != std::string::npos) {
-                            auto it = E.c.cells.find(why.substr(q0 + 6, q1 - q0 - 6));
-                            if (it != E.c.cells.end())
+                            std::string cname = why.substr(q0 + 6, q1 - q0 - 6);
+                            auto it = E.c.cells.find(cname);
+                            if (it != E.c.cells.end()) {
                                 ctx.set("cell_had_path_vertices_one_grid_step_apart", it->second.close_path_vertices > 0);
+                                ctx.set("a_vertex_was_strictly_within_tolerance", noise_cells_of_file[file].count(cname) > 0);
+                            }
                         }
                     }
                     ctx.set("flags", J());
@@ -1969,6 +1992,7 @@ struct Exec {
             std::string name = op.gets("keep");
             if (have) got.precision = E.c.precision;
             canons[name] = got;
+            canon_file[name] = file;
             if (libs.count(name)) guarded([&]() { libs[name].free_all(); });
             libs[name] = lib;
         } else {
@@ -1992,6 +2016,7 @@ struct Exec {
         tm none = {};
         note_saved(file, op, "oas", false, none);
         finfo[file].max_points = (uint64_t)op.geti("flags");
+        note_noise_chain(from, file);
         count("resave_oas");
         J ctx = J::obj();
         drain_seam_violations(prop, ctx);
